@@ -153,9 +153,13 @@ def nested(ts, proc, s, entry):
     pe = _mod("loky.process_executor")
     spec = ts["nested"]
     out = {"depth": pe._CURRENT_DEPTH, "pid": proc.pid, "sub": []}
+    ctx = spec.get("context")
+    if isinstance(ctx, str):
+        from loky.backend import get_context
+        ctx = get_context(ctx)
     try:
         ex = ProcessPoolExecutor(max_workers=spec.get("workers", 1), timeout=spec.get("timeout"),
-                                 context=spec.get("context"))
+                                 context=ctx)
     except pe.LokyRecursionError:
         out["refused"] = True
         rt.RT.run.obs.notes.append(("refused", proc.pid, pe._CURRENT_DEPTH, spec.get("context")))
